@@ -62,7 +62,7 @@ def episode(project, rng, focus):
                                                            sc.glob_shapes(project, b, rng)["*/text"]]})
             ep.law("excl", [s0, s3])
     if focus == "C09":
-        for k in range(1, min(depth, 4) + 1):
+        for k in range(0, min(depth, 4) + 1):
             sk = ep.scan(limit=k)
             ep.law("quotient", [s0, sk])
             for i, rule in enumerate(sc.rules_above(sc.all_modules(project), 1 + k, rng, 6)):
@@ -95,7 +95,7 @@ def episode(project, rng, focus):
             sd = ep.scan(mpath=d)
             sde = ep.scan(mpath=d, ext=True)
             ep.law("internal", [sd, sde])
-        for k in (1, 2):
+        for k in (0, 1, 2):
             a = ep.scan(limit=k)
             b = ep.scan(limit=k, ext=True)
             ep.law("internal", [a, b])
